@@ -170,6 +170,7 @@ class WrapFS(FS, typing.Generic[_F]):
 
     def move(self, src_path, dst_path, overwrite=False, preserve_time=False):
         # type: (Text, Text, bool, bool) -> None
+        self.check()
         _fs, _src_path = self.delegate_path(src_path)
         _, _dst_path = self.delegate_path(dst_path)
         with unwrap_errors({_src_path: src_path, _dst_path: dst_path}):
@@ -179,6 +180,7 @@ class WrapFS(FS, typing.Generic[_F]):
 
     def movedir(self, src_path, dst_path, create=False, preserve_time=False):
         # type: (Text, Text, bool, bool) -> None
+        self.check()
         _fs, _src_path = self.delegate_path(src_path)
         _, _dst_path = self.delegate_path(dst_path)
         with unwrap_errors({_src_path: src_path, _dst_path: dst_path}):
@@ -265,6 +267,7 @@ class WrapFS(FS, typing.Generic[_F]):
 
     def copy(self, src_path, dst_path, overwrite=False, preserve_time=False):
         # type: (Text, Text, bool, bool) -> None
+        self.check()
         src_fs, _src_path = self.delegate_path(src_path)
         dst_fs, _dst_path = self.delegate_path(dst_path)
         with unwrap_errors({_src_path: src_path, _dst_path: dst_path}):
@@ -274,6 +277,7 @@ class WrapFS(FS, typing.Generic[_F]):
 
     def copydir(self, src_path, dst_path, create=False, preserve_time=False):
         # type: (Text, Text, bool, bool) -> None
+        self.check()
         src_fs, _src_path = self.delegate_path(src_path)
         dst_fs, _dst_path = self.delegate_path(dst_path)
         with unwrap_errors({_src_path: src_path, _dst_path: dst_path}):
